@@ -92,6 +92,33 @@ def codecs(P):
                         f.qualname, fmt, w, guard))
                 fm[w] = fmt
                 direction = 'pack' if U(n.func).endswith('pack') and not U(n.func).endswith('unpack') else 'unpack'
+            elif isinstance(n, ast.Call) and U(n.func) in ('struct.pack', 'struct.unpack') and n.args and \
+                    isinstance(n.args[0], (ast.Name, ast.Call, ast.Subscript)):
+                # format chosen by the width of the buffer from a literal table:  fmt = {4: '<I', 2: '<H'}.get(len(b))
+                sel = n.args[0]
+                if isinstance(sel, ast.Name):
+                    ds = [a for a in ast.walk(f.node) if isinstance(a, ast.Assign) and len(a.targets) == 1 and U(a.targets[0]) == sel.id]
+                    sel = ds[0].value if len(ds) == 1 else None
+                table = key = None
+                if isinstance(sel, ast.Call) and isinstance(sel.func, ast.Attribute) and sel.func.attr == 'get' and len(sel.args) >= 1:
+                    table, key = sel.func.value, sel.args[0]
+                elif isinstance(sel, ast.Subscript):
+                    table, key = sel.value, sel.slice
+                if isinstance(table, ast.Name):
+                    ds = [a for a in ast.walk(f.node) if isinstance(a, ast.Assign) and len(a.targets) == 1 and U(a.targets[0]) == table.id]
+                    table = ds[0].value if len(ds) == 1 else None
+                if isinstance(table, ast.Dict) and key is not None and U(key).startswith('len(') and \
+                        all(isinstance(k, ast.Constant) and isinstance(v, ast.Constant) and isinstance(v.value, str)
+                            for k, v in zip(table.keys, table.values)):
+                    for k, v in zip(table.keys, table.values):
+                        try:
+                            w = struct.calcsize(v.value)
+                        except struct.error:
+                            raise AnalysisError('bad struct format %r in %s' % (v.value, f.qualname))
+                        if w != k.value:
+                            raise AnalysisError('%s: struct format %r has width %d under the table key %r' % (f.qualname, v.value, w, k.value))
+                        fm[w] = v.value
+                    direction = 'pack' if U(n.func).endswith('pack') and not U(n.func).endswith('unpack') else 'unpack'
         if fm:
             out[f.name] = Codec(f.name, fm, direction)
     if len(out) < 6:
